@@ -266,6 +266,29 @@ struct VectorizedHashTable {
     direct: Option<(i64, i64)>,
 }
 
+/// A direct-address table indexes `heads` by key VALUE, not by hash, and its
+/// fast paths expect an Int64 probe key. A probe key of a narrower integer
+/// width (`bigint_col = integer_col`) is widened here; without it the probe
+/// fell through to the hash layout and indexed `heads` out of bounds.
+fn widen_probe_key_for_direct(probe_key_arrays: &[ArrayRef]) -> Option<Vec<ArrayRef>> {
+    use arrow::datatypes::DataType;
+    let first = probe_key_arrays.first()?;
+    match first.data_type() {
+        DataType::Int8
+        | DataType::Int16
+        | DataType::Int32
+        | DataType::UInt8
+        | DataType::UInt16
+        | DataType::UInt32 => {
+            let widened = arrow::compute::cast(first, &DataType::Int64).ok()?;
+            let mut out = probe_key_arrays.to_vec();
+            out[0] = widened;
+            Some(out)
+        }
+        _ => None,
+    }
+}
+
 impl VectorizedHashTable {
     /// Build the vectorized hash table from build-side batches.
     fn build(batches: &[RecordBatch], key_exprs: &[Expr]) -> Result<Self> {
@@ -424,6 +447,12 @@ impl VectorizedHashTable {
         num_rows: usize,
         mut emit: impl FnMut(u32, u32, u32),
     ) -> bool {
+        let widened = if self.direct.is_some() {
+            widen_probe_key_for_direct(probe_key_arrays)
+        } else {
+            None
+        };
+        let probe_key_arrays = widened.as_deref().unwrap_or(probe_key_arrays);
         if let Some((kmin, kmax)) = self.direct {
             if let Some(pa) = probe_key_arrays[0].as_any().downcast_ref::<Int64Array>() {
                 let vals = pa.values();
@@ -484,6 +513,12 @@ impl VectorizedHashTable {
 
     fn probe_batch(&self, probe_key_arrays: &[ArrayRef], num_rows: usize) -> Vec<(u32, u32, u32)> {
         let mut matches = Vec::new();
+        let widened = if self.direct.is_some() {
+            widen_probe_key_for_direct(probe_key_arrays)
+        } else {
+            None
+        };
+        let probe_key_arrays = widened.as_deref().unwrap_or(probe_key_arrays);
 
         // Direct-address probe: bounds check + slot load; chain entries are
         // exactly equal keys, so no hashing and no comparisons.
